@@ -12,7 +12,7 @@ import z3
 
 from . import parse as P
 from .exec import (Executor, State, Agg, EnumV, RefV, SeqV, Opaque, FnV, ClosureV, UNIT, Outcome, Panic, enum_name_of_type)
-from .parse import Unsupported
+from .parse import Unsupported, split_top
 from .summaries import COMMON, compile_table, ok1
 
 W = 8                        # width of positions (lines of at most 200 bytes)
@@ -172,12 +172,56 @@ def const_bytes(v):
     raise Unsupported("tag/take_until pattern %r" % (v,))
 
 
+NOM_KINDS = {"map", "map_res", "verify", "opt", "peek", "all_consuming", "alt", "delimited", "terminated", "preceded", "pair", "separated_pair",
+             "recognize", "tuple"}
+
+
+def _fn_item_of_type(t):
+    """`for<'a> fn(&'a [u8]) -> .. {path::to::item}`  ->  path::to::item   (None if t is not a fn item type)"""
+    t = t.strip()
+    if not t.endswith("}") or "fn(" not in t:
+        return None
+    depth, i = 0, len(t) - 1
+    while i >= 0:
+        if t[i] == "}":
+            depth += 1
+        elif t[i] == "{":
+            depth -= 1
+            if depth == 0:
+                break
+        i -= 1
+    return t[i + 1:-1].strip()
+
+
+def parser_from_closure_type(span):
+    """a zero-sized nom closure constant (all captured parsers are fn items): the combinator and its arguments are in the type name,
+    e.g. {closure@map_res<&[u8], .., fn(..) {hex_digit1::<..>}, fn(..) {from_utf8}>::{closure#0}}"""
+    m = re.match(r"^(?:nom::(?:bytes|character|number|combinator|sequence|branch)::(?:complete::)?)?([a-z_0-9]+)<(.*)>::\{closure#0\}$", span.strip(), re.S)
+    if not m or m.group(1) not in NOM_KINDS:
+        return None
+    args = []
+    for a in split_top(m.group(2)):
+        a = a.strip()
+        if a.startswith("{closure@") and a.endswith("}"):
+            inner = parser_from_closure_type(a[len("{closure@"):-1])
+            args.append(inner if inner is not None else ClosureV(a[len("{closure@"):-1]))
+        else:
+            it = _fn_item_of_type(a)
+            if it is not None:
+                args.append(FnV(it))
+    return ParserV(m.group(1), *args)
+
+
 def apply(ex, st, p, inp, depth=0):
     """evaluate parser value p on input slice inp -> [Outcome] with IResult values"""
     if depth > 30:
         raise Unsupported("parser nesting")
     if isinstance(p, RefV):
         p = ex.deref_val(st, p)
+    if isinstance(p, ClosureV) and not isinstance(p, ParserV) and p.span not in ex.closures_by_span:
+        q = parser_from_closure_type(p.span)
+        if q is not None:
+            p = q
     if isinstance(p, (FnV, ClosureV)) and not isinstance(p, ParserV):
         if isinstance(p, FnV):
             name = ex.norm_callee(p.name)
